@@ -224,7 +224,7 @@ def law_inverse(inner, outer, x):
 
 
 def _domains(tier, rng):
-    n = 400 if tier == 'quick' else 5000
+    n = 3000 if tier == 'quick' else 60000
     d = {}
     d['midi'] = ([i for i in range(-24, 141)] +
                  [i / 2.0 for i in range(-48, 281)] +
@@ -263,7 +263,7 @@ def run_numeric(rep):
                 if lo < hi:
                     for x in xs:
                         cases.append((x, lo, hi))
-        nr = 20000 if quick else 300000
+        nr = 100000 if quick else 1500000
         for _ in range(nr):
             def val():
                 c = rng.random()
@@ -309,7 +309,7 @@ def run_numeric(rep):
         qs = [1, 2, 3, 5, 7, 0.25, 0.5, 1.0, 1.5, 2.5, 0.125, 3.0, 10]
         cases = [(x, q) for q in qs for x in
                  (list(range(-25, 26)) + [k / 8.0 for k in range(-80, 81)])]
-        nr = 20000 if quick else 300000
+        nr = 100000 if quick else 1500000
         for _ in range(nr):
             c = rng.random()
             x = (rng.randrange(-1000, 1001) if c < 0.4
@@ -349,7 +349,7 @@ def run_numeric(rep):
         bs = [1, 2, 3, 5, 7, 12, 0.25, 0.5, 1.0, 1.5, 2.5, 12.0]
         cases = [(a, b) for b in bs for a in
                  (list(range(-40, 41)) + [k / 8.0 for k in range(-160, 161)])]
-        nr = 20000 if quick else 300000
+        nr = 100000 if quick else 1500000
         for _ in range(nr):
             a = (rng.randrange(-10000, 10001) if rng.random() < 0.4
                  else rng.uniform(-1000, 1000))
@@ -436,7 +436,9 @@ class Op:
     """One operator of AbstractObject (or builtins) as seen from outside."""
 
     def __init__(self, name, arity, kernels, call, rcall=None, extra=(),
-                 defaults=(), source='absobject', selector=None):
+                 defaults=(), source='absobject', selector=None,
+                 narop=False):
+        self.narop = narop            # only the first operand is expanded
         self.name = name
         self.arity = arity            # number of numeric operands
         self.kernels = kernels        # candidate numeric operators (agree)
@@ -659,7 +661,8 @@ def builtin_ops():
         if kind == 'binop':
             rcall = (lambda a, b, _f=f: _f(a, b))
         ops.append(Op(name, nnum, [f], call, rcall=rcall, extra=extra,
-                      defaults=tuple(defaults), source='builtins'))
+                      defaults=tuple(defaults), source='builtins',
+                      narop=(kind == 'narop')))
     return ops
 
 
@@ -816,6 +819,19 @@ def expected_and_observed(op, kinds, datas, reflected=False, via='call'):
                     break
             if not ended:
                 obs.append('<more values>')
+            # a composed pattern also has to embed like the stream it makes
+            if (same(obs, expd) and isinstance(res, st['ptt'].Pattern)
+                    and all(k in ('pseq', 'ppattern', 'number', 'channellist')
+                            for k in kinds)):
+                strm = st['stm'].stream(st['lsp'].Pseq([res, res]))
+                emb = []
+                for _ in range(2 * n + 2):
+                    try:
+                        emb.append(plain(strm.next()))
+                    except StopIteration:
+                        break
+                if not same(emb, expd + expd):
+                    obs = {'embedded twice in Pseq': emb}
     except Exception as e:
         return 'raises', '%s: %s' % (type(e).__name__, e), expd
     if same(obs, expd):
@@ -882,7 +898,7 @@ def forms_for(op, recv):
         k += 1
     for omit in range(1, k + 1):
         forms.append(((recv,) + ('number',) * (a - 1 - omit), False))
-    if a == 2:
+    if a == 2 and not op.narop:
         forms.append(((recv, 'number'), False))
         forms.append(((recv, recv), False))
         if op.rcall is not None:
@@ -912,7 +928,11 @@ def forms_for(op, recv):
     if recv == 'channellist' and op.source == 'absobject':
         forms.append(((recv, 'list') + ('number',) * (a - 2), False))
         forms.append(((recv,) + ('list',) * (a - 1), False))
-    return forms
+    out = []
+    for f in forms:
+        if f not in out:
+            out.append(f)
+    return out
 
 
 def draw_case(rng, op, kinds, flavour, force=None):
@@ -924,12 +944,11 @@ def draw_case(rng, op, kinds, flavour, force=None):
         lens = [rng.choice([1, 2, 3, 4]) for _ in kinds]
         if len(lazy) > 1 and len(set(lens)) == 1 and rng.random() < 0.7:
             lens[0] += 1
-    nested_ok = op.arity <= 2 or op.source == 'builtins'
     datas = []
     for i, k in enumerate(kinds):
-        nest = nested_ok
-        if op.arity > 2 and k in EAGER_LIST:
-            nest = nested_ok and i == 0
+        nest = True
+        if (op.arity > 2 or op.narop) and k in EAGER_LIST:
+            nest = i == 0      # other list operands of n-ary forms are flat
         datas.append(draw_data(rng, k, flavour, lens[i], nest))
     # equal operands (also equal in value but int vs float) are rare in
     # independent draws: the first tries of every binary form force them
@@ -1010,10 +1029,46 @@ def kinds_text(kinds, reflected):
         '%s.<op>(%s)' % (kinds[0], ', '.join(kinds[1:]))
 
 
+FAMILY = {'function': 'function', 'routine': 'stream', 'funcstream': 'stream',
+          'pseq': 'pattern', 'ppattern': 'pattern', 'channellist': 'list',
+          'arrayed': 'list', 'list': 'list', 'tuple': 'list',
+          'operand': 'operand', 'rest': 'operand'}
+
+
+def family_key(kinds):
+    fam = sorted({FAMILY[k] for k in kinds if k in FAMILY})
+    return '+'.join(fam) or 'number'
+
+
+def _is_nested(x):
+    return isinstance(x, list) and any(isinstance(i, list) for i in x)
+
+
+def classify(obligation, op, kinds, datas, status, obs):
+    """Stable key of a failing sample: the failing site and input class."""
+    fams = {FAMILY[k] for k in kinds if k in FAMILY}
+    if (op.source == 'builtins' and 'list' in fams
+            and fams & {'function', 'stream', 'pattern', 'operand'}):
+        # builtins hand their *inner* function to the operand's hook, so a
+        # list valued second operand reaches the scalar code
+        return 'C15.forward:list-valued-operand'
+    if (op.source == 'absobject' and op.arity > 2 and kinds[0] == 'channellist'
+            and _is_nested(datas[0]) and status == 'raises'
+            and str(obs).startswith('AttributeError')):
+        return 'C15.lift:nary-nested-channellist'
+    key = '%s:%s:%s' % (obligation, op.name, family_key(kinds))
+    return key + (':raises' if status == 'raises' else '')
+
+
+SINGLE_KEYS = ('C15.forward:list-valued-operand',
+               'C15.lift:nary-nested-channellist')
+
+
 def report_lift(rep, stats, obligation, func):
     """Turn statistics into violations / notes."""
     unsupported = {}
     novalid = []
+    found = {}
     for fk in stats:
         cell = stats[fk]
         opname, kinds, reflected = fk
@@ -1022,49 +1077,44 @@ def report_lift(rep, stats, obligation, func):
         if total == 0:
             novalid.append(opname)
             continue
-        for size, datas, obs, expd in sorted(cell['bad'],
-                                             key=lambda t: t[0])[:1]:
-            rep.violation(
-                obligation=obligation,
-                what='%s on (%s)%s: evaluating the composed object gives %r,'
-                     ' the numeric operator on the evaluated operands %r; '
-                     'operands %r'
-                     % (opname, ', '.join(kinds),
-                        ' [number on the left]' if reflected else '',
-                        obs, expd, datas),
-                input={'op': opname, 'kinds': list(kinds), 'datas': datas,
-                       'reflected': reflected, 'source': op.source},
-                observed=obs, expected=expd,
-                key='%s:%s:%s' % (obligation, opname, '-'.join(kinds)),
-                replay={'func': func,
-                        'args': {'op': opname, 'kinds': list(kinds),
-                                 'datas': datas, 'reflected': reflected,
-                                 'source': op.source}})
-        if cell['raises']:
-            typed = all(o.startswith(('TypeError', 'NotImplementedError',
-                                      'AttributeError'))
-                        for _, _, o, _ in cell['raises'])
-            if cell['ok'] == 0 and not cell['bad'] and typed:
-                unsupported.setdefault((kinds, reflected), []).append(opname)
+        items = [('mismatch',) + t for t in cell['bad']]
+        typed = all(str(o).startswith(('TypeError', 'NotImplementedError',
+                                       'AttributeError'))
+                    for _, _, o, _ in cell['raises'])
+        nolift = (cell['raises'] and cell['ok'] == 0 and not cell['bad']
+                  and typed)
+        for t in cell['raises']:
+            key = classify(obligation, op, kinds, t[1], 'raises', t[2])
+            if nolift and key not in SINGLE_KEYS:
                 continue
-            size, datas, obs, expd = sorted(cell['raises'],
-                                            key=lambda t: t[0])[0]
-            rep.violation(
-                obligation=obligation,
-                what='%s on (%s)%s raises %s where the numeric operator is '
-                     'defined (= %r); operands %r'
-                     % (opname, ', '.join(kinds),
-                        ' [number on the left]' if reflected else '',
-                        obs, expd, datas),
-                input={'op': opname, 'kinds': list(kinds), 'datas': datas,
-                       'reflected': reflected, 'source': op.source},
-                observed=obs, expected=expd,
-                key='%s:%s:%s:raises' % (obligation, opname,
-                                         '-'.join(kinds)),
-                replay={'func': func,
-                        'args': {'op': opname, 'kinds': list(kinds),
-                                 'datas': datas, 'reflected': reflected,
-                                 'source': op.source}})
+            items.append(('raises',) + t)
+        if nolift and not any(it[0] == 'raises' for it in items):
+            unsupported.setdefault((kinds, reflected), []).append(opname)
+        for status, size, datas, obs, expd in items:
+            key = classify(obligation, op, kinds, datas, status, obs)
+            found.setdefault(key, []).append(
+                (size, status, opname, kinds, reflected, datas, obs, expd,
+                 op.source))
+    for key in sorted(found):
+        lst = sorted(found[key], key=lambda t: (t[1] != 'mismatch', t[0],
+                                                repr(t[2:6])))
+        for (size, status, opname, kinds, reflected, datas, obs, expd,
+             source) in lst[:3]:
+            where = '%s on (%s)%s' % (
+                opname, ', '.join(kinds),
+                ' [number on the left]' if reflected else '')
+            if status == 'raises':
+                what = ('%s raises %s where the numeric operator is defined '
+                        '(= %r); operands %r' % (where, obs, expd, datas))
+            else:
+                what = ('%s: evaluating the composed object gives %r, the '
+                        'numeric operator on the evaluated operands %r; '
+                        'operands %r' % (where, obs, expd, datas))
+            args = {'op': opname, 'kinds': list(kinds), 'datas': datas,
+                    'reflected': reflected, 'source': source}
+            rep.violation(obligation=obligation, what=what, input=args,
+                          observed=obs, expected=expd, key=key,
+                          replay={'func': func, 'args': args})
     for (kinds, reflected), names in sorted(unsupported.items()):
         rep.note('%s: no lifting for (%s)%s -- raises TypeError/'
                  'NotImplementedError/AttributeError on every sample; left '
@@ -1152,6 +1202,23 @@ def _listalg_ops():
     }
 
 
+def enc_tuples(x):
+    """JSON keeps no tuples: mark them."""
+    if isinstance(x, tuple):
+        return {'tuple': [enc_tuples(i) for i in x]}
+    if isinstance(x, list):
+        return [enc_tuples(i) for i in x]
+    return x
+
+
+def dec_tuples(x):
+    if isinstance(x, dict):
+        return tuple(dec_tuples(i) for i in x['tuple'])
+    if isinstance(x, list):
+        return [dec_tuples(i) for i in x]
+    return x
+
+
 def check_listalg(opname, datas):
     utl = setup()['utl']
     arity, k = _listalg_ops()[opname]
@@ -1174,7 +1241,7 @@ def check_listalg(opname, datas):
 
 def run_listalg(rep):
     rng = rep.rng
-    total = 3000 if rep.tier == 'quick' else 60000
+    total = 20000 if rep.tier == 'quick' else 400000
     names = sorted(_listalg_ops())
     n = 0
     seen = set()
@@ -1218,7 +1285,7 @@ def run_listalg(rep):
             input={'op': opname, 'datas': datas}, observed=obs, expected=expd,
             key='C15.listalg:%s' % status,
             replay={'func': 'listalg',
-                    'args': {'op': opname, 'datas': datas}})
+                    'args': {'op': opname, 'datas': enc_tuples(datas)}})
     rep.note('listalg: only element values and lengths are compared (result '
              'container types are not); empty lists are left unspecified; '
              'list_narop expands its first operand only (other operands '
@@ -1249,7 +1316,7 @@ def main(rep):
     if wants(rep, 'dispatch'):
         run_dispatch(rep, aops)
     if wants(rep, 'lift'):
-        per_form = 4 if quick else 40
+        per_form = 12 if quick else 150
         stats, n, distinct, samples = explore(rep, aops, 'lift', per_form)
         report_lift(rep, stats, 'C15.lift', 'lift')
         rep.bounded(
@@ -1269,7 +1336,7 @@ def main(rep):
             samples=samples)
     if wants(rep, 'forward'):
         bops = builtin_ops()
-        per_form = 3 if quick else 30
+        per_form = 8 if quick else 100
         stats, n, distinct, samples = explore(
             rep, bops, 'forward', per_form,
             kinds_filter=('function', 'routine', 'pseq', 'channellist',
@@ -1327,7 +1394,8 @@ def replay(case, rep):
             obs = 'raises %s' % e
         ok = same(obs, expd)
     elif func == 'listalg':
-        status, obs, expd = check_listalg(args['op'], args['datas'])
+        status, obs, expd = check_listalg(args['op'],
+                                          dec_tuples(args['datas']))
         ok = status in ('ok', 'invalid')
     else:
         raise ValueError('unknown replay function %r' % (func,))
